@@ -126,6 +126,12 @@ def make_rewrites(summary=None):
                 if sep is not None and sep_ok(sep, summary):
                     s = strip(sep)
                     return _pseudo("ROWSER", f[1], SEP if is_const(s) else s)
+            # X.astype(str).sum(axis=1): pandas adds the string cells of a row, i.e. concatenates them with NO separator - a row serialisation
+            # that is modelled (and differs from the specified one, which needs a non-empty separator)
+            if head(f) == "attr" and f[2] == "sum" and not t[2] and is_const(kw.get("axis"), 1) and len(kw) == 1:
+                x = strip(f[1])
+                if head(x) == "call" and head(strip(x[1])) == "attr" and strip(x[1])[2] == "astype" and len(x[2]) == 1 and strip(x[2][0]) == ("glob", "builtins.str"):
+                    return _pseudo("ROWSER", strip(x[1])[1], const(""))
             # X.fillna(<constant>)
             if head(f) == "attr" and f[2] == "fillna":
                 v = get_arg(t, 0, "value")
